@@ -154,8 +154,14 @@ func (c *StringScanner) Unread() {
 	// Update the current position
 	c.position--
 
+	// The end-of-input slot has no coordinates of its own
+	if c.position+1 >= len(c.content) {
+		c.verifHook(VerifOpUnread)
+		return
+	}
+
 	// Update line and columns (optimization)
-	if c.column > 0 {
+	if c.column > 0 && c.isColumn(c.charAt(c.position+1)) {
 		c.column--
 		c.verifHook(VerifOpUnread)
 		return
